@@ -220,8 +220,9 @@ def readFrom (gen : Nat → α) (m : Elastic α) (pos : Nat) (sc : List RStep) :
 
 /-- `WriteTo(w)` -/
 def writeTo (m : Elastic α) (sc : List WStep) : Elastic α × Nat × Err × List α :=
-  let (rg, n, e, sink, rest) := m.ring.writeTo sc
-  if e ≠ .nil ∧ e ≠ .isEmpty then ({ m with ring := rg }, n, e, sink)
+  let (rg, n, e, sink, rest) :=
+    if m.ring.isEmpty then (m.ring, 0, Err.nil, [], sc) else m.ring.writeTo sc
+  if e ≠ .nil then ({ m with ring := rg }, n, e, sink)
   else
     let (l', n2, e2, sink2) := LL.writeToLoop m.list.segs m.list.size m.list.bytes rest 0 []
     ({ m with ring := rg, list := l' }, n + n2, e2, sink ++ sink2)
